@@ -69,12 +69,14 @@ def _r1(chk, repo):
 
     jd = repo.cls(f"{JD}:JointDistribution")
     f = repo.method(jd, "logd")[1]
-    v, g = cfgv(repo, jd, f)
+    v, g = cfgv(repo, jd, f, 4)       # helpers not inlined: the rule is about the call of _parse_args_add_to_kwargs
     loops = [n for n in g.nodes if n.kind == "iter" and path_of(n.ast.iter) == "self._densities"]
     rec = len(loops) == 1
     l0 = loops[0] if rec else None
     ok = rec and any(guarded(g, l0, p, lab) for p, lab in (("set(kwargs.keys())!=set(self.get_parameter_names())", "F"), ("set(self.get_parameter_names())!=set(kwargs.keys())", "F"),
-                                                             ("set(kwargs.keys())==set(self.get_parameter_names())", "T"), ("set(self.get_parameter_names())==set(kwargs.keys())", "T")))
+                                                             ("set(kwargs.keys())==set(self.get_parameter_names())", "T"), ("set(self.get_parameter_names())==set(kwargs.keys())", "T"),
+                                                             ("set(kwargs)!=set(self.get_parameter_names())", "F"), ("set(self.get_parameter_names())!=set(kwargs)", "F"),
+                                                             ("set(kwargs)==set(self.get_parameter_names())", "T"), ("set(self.get_parameter_names())==set(kwargs)", "T")))
     chk.decide("C01-R1", f"{jd.qual}.logd/names", ok, rec, site(repo, f),
                "all and only the joint's parameters must be given", "joint evaluation with missing/unknown variables is not refused", f)
     pk = nodes_matching(g, "kwargs=self._parse_args_add_to_kwargs(*args,**kwargs)")
